@@ -1,6 +1,8 @@
 //! Property monitors, one module per property.
 pub mod c01;
 pub mod c11;
+pub mod c13;
+pub mod c14;
 pub mod common;
 
 use crate::infra::{Ctx, Report};
@@ -16,6 +18,8 @@ pub struct Prop {
 
 pub const PROPS: &[Prop] = &[
     Prop { id: "C01", run: c01::run, dbg_part: true, rule: c01::RULE, assumptions: c01::ASSUMPTIONS },
+    Prop { id: "C13", run: c13::run, dbg_part: true, rule: c13::RULE, assumptions: c13::ASSUMPTIONS },
+    Prop { id: "C14", run: c14::run, dbg_part: true, rule: c14::RULE, assumptions: c14::ASSUMPTIONS },
 ];
 
 pub fn lookup(id: &str) -> Option<&'static Prop> {
